@@ -326,3 +326,49 @@ func replSub(r *core.Run, name string, cfg core.Cfg, maxN int, fn func(s *core.S
 	s.Transitions.Store(s.Evals.Load())
 	s.Done()
 }
+
+// length families: every sink context with a payload of EVERY length from 1 to maxLen (thresholds such as the 999-byte
+// link label limit, 4096/8192-byte buffers and 1000-character scans are crossed at every phase)
+func lengthSub(r *core.Run, name string, cfg core.Cfg, maxLen int, fn func(s *core.Sub, cv *core.Conv, w []byte)) {
+	var ctxs []sinkCtx
+	for _, c := range sinkContexts {
+		live := !c.attr || cfg.Attr
+		if live {
+			ctxs = append(ctxs, c)
+		}
+	}
+	units := []string{"a", "ab ", "[", "*a", "\\"}
+	s := r.Sub(name, fmt.Sprintf("each of %d sink templates with § replaced by the first L bytes of the endless repetition of each unit in %q, for EVERY L from 1 to %d, under %s", len(ctxs), units, maxLen, cfg))
+	s.Planned = int64(len(ctxs) * len(units) * maxLen)
+	s.Bound = fmt.Sprintf("%d templates × %d units × L=1..%d", len(ctxs), len(units), maxLen)
+	complete := core.ForEachIndex(len(ctxs)*len(units), core.Workers(), func(w int) func(int) {
+		cv := core.NewConv(cfg)
+		return func(i int) {
+			c, u := ctxs[i/len(units)], units[i%len(units)]
+			parts := strings.Split(c.tmpl, "§")
+			payload := strings.Repeat(u, maxLen/len(u)+1)
+			var doc []byte
+			for l := 1; l <= maxLen; l++ {
+				doc = doc[:0]
+				for k, p := range parts {
+					if k > 0 {
+						doc = append(doc, payload[:l]...)
+					}
+					doc = append(doc, p...)
+				}
+				fn(s, cv, doc)
+				s.Evals.Add(1)
+			}
+			s.Distinct(core.Hash([]byte(c.name + u)))
+			if i%23 == 0 {
+				s.AddSample(fmt.Sprintf("template %q unit %q L=1..%d", c.tmpl, u, maxLen))
+			}
+		}
+	}, r.Expired)
+	if !complete {
+		s.Incomplete("internal deadline reached")
+	}
+	s.States.Store(s.Evals.Load())
+	s.Transitions.Store(s.Evals.Load())
+	s.Done()
+}
